@@ -680,7 +680,9 @@ def model_index(mx: list) -> Dict[str, Any]:
 
 # ---------------------------------------------------------------------------- generator
 
-SEGS = ["a", "b", "c", "d", "x", "y", "meta"]
+SEGS = ["a", "b", "c", "d", "x", "y", "meta", "A", "0d", "Mb", "~t"]
+# ("A", "0d", "Mb" sort before their "metador_meta_<name>" sidecars, "x", "y", "~t" after: a listing
+#  that is iterated while sidecars are removed meets the vanished sidecar between the two kinds)
 RES_SEGS = ["metador_x", "metador_meta_", "metador_meta_x", "metador_container"]
 VALUES = ["i:0", "i:1", "i:7"]
 ATTR_KEYS = ["k", "m"]
@@ -960,6 +962,30 @@ def pattern_histories() -> List[List[list]]:
               ["sattach", "/x", NOPE_EP, "1", True], ["sattach", "/x", bb, "1", False], ["sattach", "/zz", bb, "1", True],
               ["sattach", "/x", ff, "1", True], ["sattach", "/x", pp, "1", True], ["sattach", "/", ff, "1", True],
               ["detach", "/x", bb], ["detach", "/x", aa], ["bnd"], ["sattach", "/", pp, "2", True]])
+    # groups whose children carry metadata and sort on both sides of the "metador_meta_*" sidecars:
+    # recursive destruction (delete) and stripping (copy without metadata) iterate the listing
+    # while removing sidecars
+    for names in (["A", "0d", "Mb", "x", "~t"], ["Mb", "y", "x"], ["0d", "a", "~t", "y"]):
+        h: List[list] = [["mkgrp", "/", "g"]]
+        for i, nm in enumerate(names):
+            h.append(["set", "/g", nm, f"i:{i}"])
+        for i, nm in enumerate(names):
+            if not (len(names) == 5 and nm == "0d"):
+                h.append(["sattach", "/g/" + nm, [aa, bb, cc, dd][i % 4], str(i % 3), True])
+        H.append([list(o) for o in h] + [["del", "/", "g"]])
+        h += [["copy", "/", "g", "g2", True], ["copy", "/", "g", "g3", False], ["mkgrp", "/", "o"], ["move", "/", "g3", "o/g4"],
+              ["del", "/", "g"], ["del", "/", "g2"], ["del", "/", "o"]]
+        H.append(h)
+    # nested trees with BARE intermediate groups: metadata at several depths, none on the groups between
+    nest = [["mkgrp", "/", "t/u/v/w"], ["set", "/", "t/u/v/w/e", "i:1"], ["set", "/", "t/u/k", "i:2"], ["mkgrp", "/", "t/u/v/z"],
+            ["sattach", "/t", aa, "0", True], ["sattach", "/t/u/v/w/e", bb, "1", True], ["sattach", "/t/u/k", cc, "2", True],
+            ["sattach", "/t/u/v/z", dd, "0", True]]
+    H.append([list(o) for o in nest] + [["del", "/", "t"]])
+    H.append([list(o) for o in nest] + [["copy", "/", "t", "t2", True], ["del", "/", "t2"], ["del", "/t", "u"]])
+    H.append([list(o) for o in nest] + [["copy", "/", "t/u", "u2", False], ["move", "/", "t", "m/n"], ["reopen", False, "file"],
+                                         ["del", "/m/n/u", "v"], ["del", "/", "u2"], ["del", "/", "m"]])
+    H.append([["mkgrp", "/", "p/q"], ["set", "/", "p/q/e", "i:1"], ["sattach", "/p/q/e", aa, "0", True],
+              ["copy", "/", "p", "p2", True], ["del", "/", "p"]])
     # children index chains
     H.append([["set", "/", "x", "i:1"], ["set", "/", "y", "i:2"], ["sattach", "/x", cc, "1", True], ["sattach", "/y", dd, "2", True],
               ["sattach", "/y", bb, "2", True], ["detach", "/x", cc], ["detach", "/y", bb], ["sattach", "/x", aa, "0", True],
